@@ -198,6 +198,11 @@ func (d *Del) whyOpt(c certainty, lo, hi time.Time, noOrder bool) string {
 			earlierArr := p.ArrSeq < d.ArrSeq
 			earlierPub := p.Msg.Seq < d.Msg.Seq
 			if c == must {
+				// a record the model lost track of (or adopted late: its arrival
+				// position is then unknown as well) may sit anywhere in the chain
+				if p.Wild {
+					return "blocked-by-predecessor"
+				}
 				if !(p.ArrSeq <= d.ArrSeq || earlierPub) {
 					continue
 				}
